@@ -147,8 +147,10 @@ def fold(s: S) -> S:
 
 
 def _never_none(x: S) -> bool:
-    """a value that is built on the spot: a tuple / list / dict display, a number, a string"""
-    return isinstance(x, tuple) and bool(x) and (x[0] in ("tuple", "list", "dict", "comp") or (x[0] == "k" and x[1] in ("num", "str", "bool")))
+    """a value that is built on the spot: a tuple / list / dict display, a number, a string, the result of arithmetic or of a
+    comparison"""
+    return isinstance(x, tuple) and bool(x) and (x[0] in ("tuple", "list", "dict", "comp", "poly", "lt0", "eq0", "ne0", "not", "and", "or", "cmp", "concat", "fstr")
+                                                 or (x[0] == "k" and x[1] in ("num", "str", "bool")))
 
 
 def assume(x: S, cond: S, truth: bool) -> S:
